@@ -226,7 +226,7 @@ PROPS = {
         assumptions=[],
     ),
     "C17": dict(
-        lean_modules=["PalomaModel.Props.C17", "PalomaModel.Props.Consts.C17"], gen=["ConstTable.lean"],
+        lean_modules=["PalomaModel.Props.C17", "PalomaModel.Props.Consts.C17", "PalomaModel.Props.Translated.C17"], gen=["ConstTable.lean", "Translated.lean"],
         harness_test="TestC17",
         n_quick=300, n_thorough=3000, thorough_seeds=6, timeout_quick=900,
         spec_ops=["*"],  # every observable the driver prints for this property is the property's own subject (canonical state / verdicts)
